@@ -33,7 +33,7 @@ RULE = ("each run draws a chain of 0-3 pre-elements (callable, Variable, Filter,
         "regimes; one run in five checks an adapter (Call, Run, FillInto, FillCompute, SourceEl) "
         "with a drawn method name or an ill-typed argument instead; non-trivial = at least one "
         "pre-element and a non-empty flow, or an adapter case; distinct = distinct abstracted "
-        "event-kind sequences"
+        "event-kind sequences."
         " Since the seeded rounds also: callables that return None or a generator, stateful"
         " callables under deep copies of the sequence, pre-elements raising Lena exceptions,"
         " Variables with data attributes named like methods, selectors of Filter given as function"
